@@ -964,6 +964,12 @@ class Lemma:
         if not (cg.stack == bubble.cur): book.append('self.stack is not bubble.cur')
         if bubble.cur.array_num != self.entry_stack.array_num + 1: book.append('array_num not incremented for a new array')
         if len(cg.allocated_arrays) != self.entry_stack.array_num + 1: book.append('allocated_arrays not extended')
+        if isinstance(bubble.value, ArrayRef):
+            # a stack array lives in the state section: its reference must say so (R when the literal is const, RW otherwise) -- the storage class
+            # decides which library routine / load instruction every later use picks
+            want_access = AccessMode.R if getattr(e.type, 'const', False) else AccessMode.RW
+            if bubble.value.type.access != want_access:
+                book.append(f'a stack array literal is tagged {bubble.value.type.access.name} (storage {bubble.value.section.name}), documented {want_access.name} (state section)')
         self.add('BOOK', FAILED if book else DISCHARGED, t0, P['SIM'], {'message': '; '.join(book), 'formula': 'bookkeeping of a freshly allocated array',
                  'replay': {'reproduced': True, 'how': 'observed on the value returned by the real method'}}, backend='harness')
         if book:
